@@ -168,7 +168,8 @@ class Translator:
         FLOAT_DT = ("float", "np.float64", "np.double", "np.float_", "'float64'", "'float'", "'d'")
         if c.keywords and d in ("np.zeros", "np.ones", "np.empty", "np.zeros_like", "np.ones_like", "np.empty_like", "np.asarray", "np.array",
                                 "np.full", "np.full_like") and \
-                all(k.arg == "dtype" and (dotted(k.value) or ast.unparse(k.value)) in FLOAT_DT for k in c.keywords):
+                all(k.arg == "dtype" and ((dotted(k.value) or ast.unparse(k.value)) in FLOAT_DT or
+                                          ast.unparse(k.value).replace(" ", "").startswith(("np.result_type(", "np.promote_types("))) for k in c.keywords):
             c = ast.Call(func=c.func, args=c.args, keywords=[])     # a real floating dtype does not change the formula
         if d in self.helpers:
             for n_ in ast.walk(self.helpers[d].node):
@@ -634,6 +635,21 @@ def rule_arrlike(ctx: Ctx) -> List[Ob]:
                     isinstance(c.value, ast.Name) and c.value.id == p:
                 obs.append(Ob("ARRLIKE", "the benchmark does not depend on the memory layout of the point", m.rel, c.lineno, f"benchmarks.{n.name}",
                               short(c, 50), False, f"`{short(c, 40)}`: memory layout / real part of the argument"))
+        # an accumulator made with zeros_like / empty_like / ones_like of the point inherits the point's number type: for an
+        # integer-typed point (np.array([1, -2, 3]) is a point of the domain) an in-place floating update raises
+        # UFuncTypeError (same_kind casting) and a plain store truncates
+        for s_ in ast.walk(n):
+            if isinstance(s_, ast.Assign) and len(s_.targets) == 1 and isinstance(s_.targets[0], ast.Name) and isinstance(s_.value, ast.Call) \
+                    and dotted(s_.value.func) in ("np.zeros_like", "np.empty_like", "np.ones_like", "np.full_like") and s_.value.args \
+                    and src(s_.value.args[0]) == p and kw(s_.value, "dtype") is None:
+                acc_ = s_.targets[0].id
+                wr = [w for w in ast.walk(n) if (isinstance(w, ast.AugAssign) and isinstance(w.target, (ast.Subscript, ast.Name)) and
+                                                 src(w.target).split("[")[0] == acc_) or
+                      (isinstance(w, ast.Assign) and isinstance(w.targets[0], ast.Subscript) and src(w.targets[0]).split("[")[0] == acc_)]
+                obs.append(Ob("ARRLIKE", "an accumulator written in place does not inherit an integer type from the point", m.rel, s_.lineno,
+                              f"benchmarks.{n.name}", f"{acc_} = {dotted(s_.value.func)}({p})", not wr,
+                              (f"`{short(s_, 50)}` has the dtype of the point and is updated in place at line {wr[0].lineno}: for an integer-typed "
+                               "point the update raises UFuncTypeError (or truncates)") if wr else "never written in place"))
         if n.name.endswith("_grad"):
             # the gradient has the shape of x for every n, n = 1 included: nothing on the way to the return may drop axes
             drops = [c for c in ast.walk(n) if isinstance(c, ast.Call) and (
